@@ -14,5 +14,5 @@ fi
 trap 'git -C /repo checkout -- . ; git -C /repo clean -fdq' EXIT
 cd /verif
 for s in $seeds; do
-  VERIF_SEED=$s ./check "$prop" "$tier" 2>&1 | grep -E "^(VIOLATION|KNOWN|INCONCLUSIVE|C[0-9]+ )" | cut -c1-300
+  VERIF_SCRATCH_EVIDENCE=1 VERIF_NO_REGRESS=${NOREGRESS:-0} VERIF_SEED=$s ./check "$prop" "$tier" 2>&1 | grep -E "^(VIOLATION|KNOWN|INCONCLUSIVE|C[0-9]+ )" | cut -c1-300
 done
